@@ -235,16 +235,16 @@ func Main(t *testing.T, property string, body func(r *Run)) {
 		return
 	}
 	out := map[string]any{
-		"property":    property,
-		"tier":        r.Tier,
-		"shard":       []int{r.ShardI, r.ShardN},
-		"wall_s":      time.Since(r.start).Seconds(),
-		"evals":       r.Evals,
-		"distinct":    r.Distinct,
-		"outcomes":    outcomeList(r.Rep.Outcomes),
-		"outcomes_n":  len(r.Rep.Outcomes),
-		"report":      r.Rep,
-		"extra":       r.Extra,
+		"property":   property,
+		"tier":       r.Tier,
+		"shard":      []int{r.ShardI, r.ShardN},
+		"wall_s":     time.Since(r.start).Seconds(),
+		"evals":      r.Evals,
+		"distinct":   r.Distinct,
+		"outcomes":   outcomeList(r.Rep.Outcomes),
+		"outcomes_n": len(r.Rep.Outcomes),
+		"report":     r.Rep,
+		"extra":      r.Extra,
 	}
 	b, err := json.Marshal(out)
 	if err != nil {
